@@ -259,6 +259,13 @@ def run_optimization(case, R):
                     ("AtLeast[met]", lambda: OP.AtLeastMeasurable(probe_name, tt_, thr_lo, pop_names=psel), 0.0),
                     ("AtLeast[violated]", lambda: OP.AtLeastMeasurable(probe_name, tt_, thr_hi, pop_names=psel), np.inf),
                 ]
+                d_abs = max(1e-6, 1e-3 * abs(v))
+                probes += [
+                    ("IncreaseBy-abs[met]", lambda: OP.IncreaseByMeasurable(probe_name, tt_, 0.0, pop_names=psel, target_type="abs"), 0.0),
+                    ("IncreaseBy-abs[violated]", lambda: OP.IncreaseByMeasurable(probe_name, tt_, d_abs, pop_names=psel, target_type="abs"), np.inf),
+                    ("DecreaseBy-abs[met]", lambda: OP.DecreaseByMeasurable(probe_name, tt_, 0.0, pop_names=psel, target_type="abs"), 0.0),
+                    ("DecreaseBy-abs[violated]", lambda: OP.DecreaseByMeasurable(probe_name, tt_, d_abs, pop_names=psel, target_type="abs"), np.inf),
+                ]
                 if v > 0:
                     probes += [
                         ("IncreaseBy[met]", lambda: OP.IncreaseByMeasurable(probe_name, tt_, 0.0, pop_names=psel), 0.0),
